@@ -28,6 +28,10 @@ def byteAt (b : Bytes) (i : Int) : Int := ((b.getD i.toNat 0).toNat : Int)
     the length, so "no panic here" implies "no panic in Go"). -/
 def inSlice (b : Bytes) (lo hi : Int) : Bool := decide (0 ≤ lo ∧ lo ≤ hi ∧ hi ≤ (b.length : Int))
 def slice (b : Bytes) (lo hi : Int) : Bytes := (b.drop lo.toNat).take (hi - lo).toNat
+/-- `[][]byte` values are lists of byte strings. -/
+def lenL (xs : List Bytes) : Int := (xs.length : Int)
+def inIdxL (xs : List Bytes) (i : Int) : Bool := decide (0 ≤ i ∧ i < (xs.length : Int))
+def atL (xs : List Bytes) (i : Int) : Bytes := xs.getD i.toNat []
 def mkBytes (xs : List Int) : Bytes := xs.map (fun x => UInt8.ofNat x.toNat)
 
 /-! ### Intrinsics: the two stdlib functions the varint package calls (hand-modelled in `PB.Model.Varint`,
